@@ -25,11 +25,12 @@ def main():
     s.violation(2, "k3", "new")
     assert s.n_violations == 1 and s.known_hits == {"k1": 1, "s1": 1} and s.violations[0]["key"] == "k3"
     # schedule-explorer determinism: same choice sequence twice => identical observations
-    try:
-        from ..sched import dask_explorer
-        dask_explorer.selftest()
-    except ImportError:
-        pass
+    from ..sched import dask_explorer, interleave, parallel_gate
+    from ..history import sequences
+    dask_explorer.selftest()
+    sequences.selftest()
+    interleave.selftest()
+    parallel_gate.selftest()
     print("xrmc selftest ok")
     return 0
 
